@@ -732,7 +732,9 @@ DEFAULT_TAGSPECS = [None, None, None, None, None, ("h", "!!", "str"), ("h", "!!"
                     ("h", "!", "local"), ("h", "!", "a/b.c-d"), ("v", "tag:yaml.org,2002:str"), ("v", "!x"),
                     ("v", "tag:example.com,2000:app/x"), ("h", "!e!", "t"), ("h", "!e!", "x%C3%A9"), ("h", "!", "p%21q"),
                     ("h", "!!", "python/tuple"), ("h", "!!", "python/name:a.b"),
-                    ("h", "!e0!", "t9"), ("h", "!9_z!", "0"), ("v", "tag:e.org,2009:x0")]
+                    ("h", "!e0!", "t9"), ("h", "!9_z!", "0"), ("v", "tag:e.org,2009:x0"),
+                    # every punctuation character a tag URI may carry verbatim
+                    ("v", "tag:e.org,2000:a+b;c=d&e@f$g~h*i'j(k)l/m?n:o-p_q.r"), ("h", "!", "a+b;c=d&e@f$g~h*i'j(k)l/m?n:o-p_q.r"), ("h", "!e!", "Az09+~*")]
 
 
 def nodes(max_leaves=10, tagspecs=None, texts=None, allow_nonspecific=False, styles=None):
